@@ -662,6 +662,9 @@ class Executor(object):
                                    self_val=v.self_val if isinstance(v.self_val, VObj) else None,
                                    cls_val=v.self_val if isinstance(v.self_val, VClass) else None,
                                    after=v.cls.name)
+        if isinstance(v, VSlice) and attr in ("start", "stop", "step"):
+            got = {"start": v.lo, "stop": v.hi, "step": v.step}[attr]
+            return [(st, "ok", NONE if got is None else got)]
         if isinstance(v, VFunc) and attr == "__name__":
             return [(st, "ok", VT(tm.S(v.node.name)))]
         if isinstance(v, (VT, VList, VDict, VTuple, VRepList)):
